@@ -713,6 +713,23 @@ func Leaves(full bool) []*Spec {
 	}))
 	add(fixed("errors:nil-safe-nil-pointer-element", func(k string) zapcore.Field { return zap.Errors(k, []error{(*safeNilErr)(nil)}) },
 		jsonx.A(jsonx.O().Add("error", jsonx.S("not found (nil receiver)")))))
+	// groups of exactly one cause and of no cause are groups: the causes array is there
+	add(leaf("error:group-with-one-cause", func(k string) zapcore.Field {
+		return zap.NamedError(k, groupErr{[]error{errors.New("disk full")}})
+	}, func(k string, r Ref) []jsonx.Member {
+		return []jsonx.Member{{Key: k, Val: jsonx.S("group failed")}, {Key: k + "Causes", Val: jsonx.A(jsonx.O().Add("error", jsonx.S("disk full")))}}
+	}))
+	add(leaf("error:group-with-no-cause", func(k string) zapcore.Field {
+		return zap.NamedError(k, groupErr{nil})
+	}, func(k string, r Ref) []jsonx.Member {
+		return []jsonx.Member{{Key: k, Val: jsonx.S("group failed")}, {Key: k + "Causes", Val: jsonx.A()}}
+	}))
+	add(leaf("error:group-nested-one-cause-groups", func(k string) zapcore.Field {
+		return zap.NamedError(k, groupErr{[]error{groupErr{[]error{errors.New("inner")}}}})
+	}, func(k string, r Ref) []jsonx.Member {
+		return []jsonx.Member{{Key: k, Val: jsonx.S("group failed")}, {Key: k + "Causes", Val: jsonx.A(
+			jsonx.O().Add("error", jsonx.S("group failed")).Add("errorCauses", jsonx.A(jsonx.O().Add("error", jsonx.S("inner")))))}}
+	}))
 	gp := leaf("error:group-Errors()-panics", func(k string) zapcore.Field { return zap.NamedError(k, groupPanics{}) }, func(k string, r Ref) []jsonx.Member {
 		return []jsonx.Member{{Key: k, Val: jsonx.S("group")}, {Key: k + "Error", Val: jsonx.Containing("errors boom")}}
 	})
